@@ -324,12 +324,14 @@ func c14Judge(b *c14Built, q c14Query, o c14Out) c14Verdict {
 	if !b.has[q.Gen] {
 		add("unknown-or-removed-generation")
 	}
-	// candW: total weight of the groups the library-version >= 2 choice considers (subnet list present)
-	totW, candW, zeroW, lead, one, bad, mapped := int64(0), int64(0), false, false, false, false, false
+	// candW: total weight of the groups the weighted choice considers (groups that list a subnet)
+	totW, candW, zeroW, lead, one, bad, mapped, emptyGroup := int64(0), int64(0), false, false, false, false, false, false
 	for _, g := range groups {
 		totW += int64(g.Weight)
-		if !g.SubnetsNil {
+		if len(g.Subnets) > 0 {
 			candW += int64(g.Weight)
+		} else {
+			emptyGroup = true
 		}
 		if g.Weight == 0 {
 			zeroW = true
@@ -367,6 +369,9 @@ func c14Judge(b *c14Built, q c14Query, o c14Out) c14Verdict {
 		}
 		if mapped {
 			add("mapped-cidr-present")
+		}
+		if emptyGroup && len(groups) > 1 && candW > 0 {
+			add("group-without-subnets-beside-others")
 		}
 	}
 
